@@ -81,12 +81,12 @@ def make_fake_chunks(sg, cover, linked):
     return CoverChunks
 
 
-def real_cover_case(n, adj, cover):
+def real_cover_case(n, adj, cover, dtype='d'):
     """Run the real merge + renumbering on (graph, cover).  Returns (raw, final) observation dicts."""
     sg = sg_module()
     linked = {frozenset(p) for p in adj}
-    ra = np.arange(n, dtype='d')
-    dec = np.zeros(n, dtype='d')
+    ra = np.arange(n).astype(dtype)          # coordinate = point index; the dtype of the caller's arrays varies
+    dec = np.zeros(n, dtype=dtype)
     fake = make_fake_chunks(sg, cover, linked)
     raw = fin = None
     try:
@@ -128,7 +128,7 @@ def groups_record(n, adj, obs):
 # ----------------------------------------------------------------------------------------------
 # independent separation oracle
 # ----------------------------------------------------------------------------------------------
-def oracle(ra, dec, L):
+def oracle(ra, dec, L, band_rel=BAND_REL):
     """(adj, border): pairs i<j certainly closer than L / inside the guard band around L.
     Two independent formulas in extended precision (chord of unit vectors; atan2 of cross and dot);
     a pair on which they do not agree about the side of L is borderline."""
@@ -143,7 +143,7 @@ def oracle(ra, dec, L):
     cy = v[:, None, 2] * v[None, :, 0] - v[:, None, 0] * v[None, :, 2]
     cz = v[:, None, 0] * v[None, :, 1] - v[:, None, 1] * v[None, :, 0]
     s2 = np.arctan2(np.sqrt(cx ** 2 + cy ** 2 + cz ** 2), dot) / D2R
-    band = LD(BAND_REL) * LD(L) + LD(BAND_ABS)
+    band = LD(band_rel) * LD(L) + LD(BAND_ABS)
     lo, hi = LD(L) - band, LD(L) + band
     near = (s1 < lo) & (s2 < lo)
     far = (s1 > hi) & (s2 > hi)
@@ -445,10 +445,58 @@ def make_sweep(rng, tmax, perm_b):
     return out, missing
 
 
+# ----------------------------------------------------------------------------------------------
+# input representation: the same whole-degree positions as float64, integer, mixed and float32 arrays
+# ----------------------------------------------------------------------------------------------
+COVER_DTYPES = ['d', 'i8', 'd', 'i4']
+DTYPE_COMBOS = [('d', 'd'), ('i8', 'i8'), ('i4', 'i4'), ('i8', 'd'), ('d', 'i4'), ('i2', 'i8'), ('f4', 'f4')]
+F32_BAND = 1e-3      # float32 input: pairs within 1e-3 relative of the linking length are left open
+
+
+def gen_whole(rng):
+    """Whole-degree positions (exactly representable in every dtype used)."""
+    kind = rng.choice(['chain', 'chain', 'box', 'box', 'polar', 'demo'])
+    L = rng.choice([0.5, 0.9, 1.3, 1.5, 2.5, 3.3, 4.7])
+    if kind == 'demo':
+        pts = [(float(x), 0.0) for x in range(0, 40, 2)]
+        L = rng.choice([1.0, 1.5, 2.5])
+    elif kind == 'chain':
+        d = rng.randint(-70, 70)
+        step = rng.choice([1, 2, 3])
+        start = rng.choice([rng.randint(0, 359), 350, 355])
+        pts = [(float((start + k * step) % 360), float(d + (k % 2) * rng.choice([0, 0, 1]))) for k in range(rng.randint(4, 30))]
+    elif kind == 'box':
+        d0 = rng.randint(-80, 70)
+        r0 = rng.choice([rng.randint(0, 359), 352])
+        w, h = rng.randint(3, 14), rng.randint(2, 9)
+        pts = [(float((r0 + rng.randint(0, w)) % 360), float(d0 + rng.randint(0, h))) for _ in range(rng.randint(4, 36))]
+    else:
+        sign = rng.choice([1, -1])
+        pts = [(float(rng.randrange(0, 360, 5)), float(sign * rng.randint(84, 90))) for _ in range(rng.randint(4, 24))]
+    return pts, L, 'whole-' + kind
+
+
+def make_dtype_sets(rng, count):
+    out = []
+    for _ in range(count):
+        pts, L, tag = gen_whole(rng)
+        if rng.random() < 0.5:
+            rng.shuffle(pts)
+        cs = admissible_chunksize(pts, L, rng.choice([None, None, 4.0 * L, 6.0 * L]))
+        for dt in DTYPE_COMBOS:
+            s = {'ra': [p[0] for p in pts], 'dec': [p[1] for p in pts], 'L': L, 'cs': cs, 'dt': list(dt),
+                 'tag': tag}
+            if 'f4' in dt:
+                s['band'] = F32_BAND
+            out.append(s)
+    return out
+
+
 def run_real(s):
     sg = sg_module()
-    ra = np.array(s['ra'], dtype='d')
-    dec = np.array(s['dec'], dtype='d')
+    dt = s.get('dt', ['d', 'd'])
+    ra = np.array(s['ra'], dtype='d').astype(dt[0])
+    dec = np.array(s['dec'], dtype='d').astype(dt[1])
     try:
         with warnings.catch_warnings():
             warnings.simplefilter('ignore')
@@ -497,6 +545,10 @@ def run(ctx):
     ctx.assumptions = [
         'inputs: RA in [0,360), |Dec| <= 90 deg (the poles included), n >= 2, linking length 3e-4 .. 30 deg; chunksize None or a multiple of the '
         'linking length (values below 4 L are raised to 4 L by spheregroup itself)',
+        'input representation: numpy arrays (spheregroup reads ra.size, so Python lists are outside its interface); whole-degree '
+        'sets are given as float64, int64, int32, int16, mixed ra/dec dtypes and float32, expected partition from the oracle on the '
+        'float64 values; float32 input only with whole-degree positions and pairs within 1e-3 relative of the linking length left '
+        'open (nothing is asserted at float32 resolution); replayed covers alternate float64 / int64 / int32 coordinate arrays',
         'link relation of a recorded set = independent oracle (numpy longdouble, chord and atan2 formulas); pairs within '
         '1e-9 relative / 1e-12 deg of the linking length are borderline and may count either way (sets with more than %d '
         'borderline pairs are not judged)' % MAX_BORDER,
@@ -539,7 +591,8 @@ def run(ctx):
         adj = sorted([list(p) for p in c['adj']])
         cover = [list(ch) for ch in c['cover']]
         efin, eraw = proj(exp['fin']), proj(exp['raw'])
-        raw, fin = real_cover_case(n, adj, cover)
+        cdt = COVER_DTYPES[ncase % len(COVER_DTYPES)]
+        raw, fin = real_cover_case(n, adj, cover, cdt)
         ctx.evaluated(1, 'replay-cover')
         ctx.validated()
         if adj and len(cover) > 1:
@@ -552,7 +605,7 @@ def run(ctx):
                         'friendsoffriends_return_equal_to_model': rawsame})
         if not same(fin, efin):
             disputed.append((sg_record(n, adj, [], fin),
-                             {'type': 'cover', 'n': n, 'adj': adj, 'cover': cover, 'expected': efin, 'observed': fin,
+                             {'type': 'cover', 'n': n, 'adj': adj, 'cover': cover, 'dtype': cdt, 'expected': efin, 'observed': fin,
                               'expected_friendsoffriends': eraw, 'observed_friendsoffriends': raw}))
     if disputed:
         bad = core.validate_records(ctx, 'Trace_FoF', [d[0] for d in disputed[:4000]], label='Trace_FoF(disputed replays)')
@@ -578,10 +631,11 @@ def run(ctx):
         sets = make_sets(rng, 2500, 70, nbig=40, bigmax=260)
         sweep, missing = make_sweep(rng, 400, False)
     sets += sweep
+    sets += make_dtype_sets(rng, 40 if ctx.quick else 250)
     recs, kept = [], []
     skipped = 0
     for s in sets:
-        adj, border = oracle(s['ra'], s['dec'], s['L'])
+        adj, border = oracle(s['ra'], s['dec'], s['L'], s.get('band', BAND_REL))
         if len(border) > MAX_BORDER:
             skipped += 1
             continue
@@ -593,10 +647,12 @@ def run(ctx):
     bad = core.validate_records(ctx, 'Trace_FoF', recs, label='Trace_FoF(spheregroup)', chunk=800)
     ctx.evaluated(len(recs), 'recorded-spheregroup')
     ctx.validated(len(recs))
-    tags = {}
+    tags, dts = {}, {}
     for s, _ in kept:
         tags[s['tag']] = tags.get(s['tag'], 0) + 1
-    ctx.sample({'recorded_sets': len(recs), 'not_judged_too_many_borderline_pairs': skipped, 'by_driver': tags,
+        dk = '/'.join(s.get('dt', ['d', 'd']))
+        dts[dk] = dts.get(dk, 0) + 1
+    ctx.sample({'recorded_sets': len(recs), 'not_judged_too_many_borderline_pairs': skipped, 'by_driver': tags, 'by_input_dtypes(ra/dec)': dts,
                 'seam_sweep_ra_chunk_counts': sorted({x['nra'] for x in sweep}) if len(sweep) < 200 else
                 '%d distinct counts %d..%d' % (len({x['nra'] for x in sweep}), min(x['nra'] for x in sweep), max(x['nra'] for x in sweep)),
                 'seam_sweep_counts_not_attainable': missing,
@@ -607,10 +663,11 @@ def run(ctx):
                                       'tag': s['tag'], 'n': len(s['ra'])}, 'returned_ingroup': obs.get('ig', obs.get('exc'))})
     for k in sorted(bad):
         s, obs = kept[k]
-        what = ('spheregroup on %d points (%s, L=%r, chunksize=%r): TLC verdict "%s"; %s'
-                % (len(s['ra']), s['tag'], s['L'], s['cs'], bad[k],
+        what = ('spheregroup on %d points (%s, dtypes %s, L=%r, chunksize=%r): TLC verdict "%s"; %s'
+                % (len(s['ra']), s['tag'], '/'.join(s.get('dt', ['d', 'd'])), s['L'], s['cs'], bad[k],
                    obs['exc'] if 'exc' in obs else 'ingroup=%s' % obs['ig'][:40]))
         ctx.violation({'what': what, 'type': 'sky', 'ra': s['ra'], 'dec': s['dec'], 'L': s['L'], 'cs': s['cs'],
+                       'dt': s.get('dt', ['d', 'd']), 'band': s.get('band', BAND_REL),
                        'tag': s['tag'], 'why': bad[k], 'observed': obs, 'points_in_no_chunk': uncovered_points(s)},
                       finding=classify_sky(s, obs))
     ctx.exhaustive = not ctx.quick
@@ -624,11 +681,12 @@ def replay(ctx, case):
     ctx.nontriv('b')
     t = case.get('type')
     if t == 'sky':
-        adj, border = oracle(case['ra'], case['dec'], case['L'])
-        obs = run_real({'ra': case['ra'], 'dec': case['dec'], 'L': case['L'], 'cs': case['cs']})
+        adj, border = oracle(case['ra'], case['dec'], case['L'], case.get('band', BAND_REL))
+        obs = run_real({'ra': case['ra'], 'dec': case['dec'], 'L': case['L'], 'cs': case['cs'],
+                        'dt': case.get('dt', ['d', 'd'])})
         rec = sg_record(len(case['ra']), adj, border, obs)
     elif t == 'cover':
-        raw, obs = real_cover_case(case['n'], case['adj'], case['cover'])
+        raw, obs = real_cover_case(case['n'], case['adj'], case['cover'], case.get('dtype', 'd'))
         print('friendsoffriends returned:', raw)
         rec = sg_record(case['n'], case['adj'], [], obs)
     elif t == 'groups':
